@@ -154,3 +154,146 @@ Proof.
     assert (Hndk : NoDup (ids kj)) by exact (flat_map_nodup_part ids _ kj Hnd' Hkj).
     exact (tgo_canon L n q l1 0 kj l2 H1 H2 Hn (IH kj Hkj Hndk Hn q Hq)).
 Qed.
+
+(* ================================================================ under an ambient filter D ================
+   The indexes are positions among the D-visible siblings; a hidden node that holds an offered node makes `index` raise.
+   Under the hypothesis that no hidden node (below the root) holds an offered node the same argument goes through with
+   the canonical trie indexed by visible positions. *)
+Definition canon_itemsD (D : nfilter) (rec : itree -> trie) (L : list nid) :=
+  fix go (i : nat) (kids : list itree) : list (nat * trie) :=
+    match kids with
+    | [] => []
+    | k :: r => if D (iid k) then (if hits L k then (i, rec k) :: go (S i) r else go (S i) r) else go i r
+    end.
+Fixpoint canonD (D : nfilter) (L : list nid) (s : itree) : trie :=
+  match s with INode id _ kids => Trie (if memb id L then Some id else None) (canon_itemsD D (canonD D L) L 0 kids) end.
+Lemma canonD_unfold D L id p kids :
+  canonD D L (INode id p kids) = Trie (if memb id L then Some id else None) (canon_itemsD D (canonD D L) L 0 kids).
+Proof. reflexivity. Qed.
+
+(* no hidden node strictly below s holds a node of L *)
+Definition hidden_free (D : nfilter) (L : list nid) (s : itree) : Prop :=
+  forall x, In x (flat_map subtrees (ikids s)) -> D (iid x) = false -> hits L x = false.
+Lemma hidden_free_kid D L s k : hidden_free D L s -> In k (ikids s) -> hidden_free D L k.
+Proof.
+  intros H Hk x Hx. apply H. apply in_flat_map. exists k. split; [exact Hk|].
+  destruct k as [i p kk]. rewrite subtrees_unfold. right. exact Hx.
+Qed.
+Lemma hidden_free_self D L s k : hidden_free D L s -> In k (ikids s) -> D (iid k) = false -> hits L k = false.
+Proof. intros H Hk. apply H. apply in_flat_map. exists k. split; [exact Hk|apply self_in_subtrees]. Qed.
+
+Lemma emit_canonD D L : forall s, hidden_free D L s -> trie_emit (canonD D L s) = filter (fun i => memb i L) (ids s).
+Proof.
+  induction s as [id p kids IH] using itree_ind'. intros Hh. rewrite canonD_unfold, ids_unfold. cbn [trie_emit filter].
+  assert (Hk : forall i, flat_map (fun kv : nat * trie => match kv with (_, sub) => trie_emit sub end) (canon_itemsD D (canonD D L) L i kids)
+                         = filter (fun i => memb i L) (flat_map ids kids)).
+  { assert (Hkids : forall k, In k kids -> hidden_free D L k /\ (D (iid k) = false -> hits L k = false)).
+    { intros k Hk. split; [exact (hidden_free_kid D L _ k Hh Hk)|exact (hidden_free_self D L _ k Hh Hk)]. }
+    clear Hh. induction IH as [|k r Hk0 _ IHr]; intros i; [reflexivity|]. cbn [canon_itemsD flat_map]. rewrite filter_app.
+    destruct (Hkids k (or_introl eq_refl)) as [Hf Hs].
+    assert (IHr' := IHr (fun k' Hk' => Hkids k' (or_intror Hk'))).
+    destruct (D (iid k)) eqn:Ed.
+    - destruct (hits L k) eqn:E.
+      + cbn [flat_map]. rewrite (Hk0 Hf), IHr'. reflexivity.
+      + rewrite (hits_false L k E), IHr'. reflexivity.
+    - rewrite (hits_false L k (Hs eq_refl)), IHr'. reflexivity. }
+  rewrite Hk. destruct (memb id L); reflexivity.
+Qed.
+
+Lemma canonD_cons_out D L n : forall s, ~ In n (ids s) -> canonD D (n :: L) s = canonD D L s.
+Proof.
+  induction s as [id p kids IH] using itree_ind'. intros Hn. rewrite !canonD_unfold. rewrite ids_unfold in Hn.
+  assert (Hid : memb id (n :: L) = memb id L).
+  { unfold memb. cbn [existsb]. destruct (N.eqb id n) eqn:E; [apply N.eqb_eq in E; subst; exfalso; apply Hn; left; reflexivity|reflexivity]. }
+  rewrite Hid. f_equal.
+  assert (Hkids : forall k, In k kids -> ~ In n (ids k)).
+  { intros k Hk Hin. apply Hn. right. apply in_flat_map. exists k. auto. }
+  clear Hn Hid. generalize 0. induction IH as [|k r Hk0 _ IHr]; intros i; [reflexivity|]. cbn [canon_itemsD].
+  rewrite (hits_cons_out L k n (Hkids k (or_introl eq_refl))), (Hk0 (Hkids k (or_introl eq_refl))).
+  rewrite !IHr by (intros k' Hk'; apply Hkids; right; exact Hk'). reflexivity.
+Qed.
+Lemma canon_itemsD_out D L n kids : (forall k, In k kids -> ~ In n (ids k)) ->
+  forall i, canon_itemsD D (canonD D (n :: L)) (n :: L) i kids = canon_itemsD D (canonD D L) L i kids.
+Proof.
+  intros H. induction kids as [|k r IH]; intros i; [reflexivity|]. cbn [canon_itemsD].
+  rewrite (hits_cons_out L k n (H k (or_introl eq_refl))), (canonD_cons_out D L n k (H k (or_introl eq_refl))).
+  rewrite !IH by (intros k' Hk'; apply H; right; exact Hk'). reflexivity.
+Qed.
+Lemma canonD_miss D L : forall s, hits L s = false -> canonD D L s = Trie None [].
+Proof.
+  induction s as [id p kids IH] using itree_ind'. intros H. rewrite canonD_unfold. unfold hits in H. rewrite ids_unfold in H.
+  cbn [existsb] in H. apply orb_false_iff in H. destruct H as [H1 H2]. rewrite H1. f_equal.
+  assert (Hk : forall k, In k kids -> hits L k = false).
+  { intros k Hk. unfold hits. destruct (existsb (fun x => memb x L) (ids k)) eqn:E; [|reflexivity].
+    apply existsb_exists in E. destruct E as [x [Hx Hm]].
+    assert (existsb (fun x => memb x L) (flat_map ids kids) = true).
+    { apply existsb_exists. exists x. split; [apply in_flat_map; exists k; auto|exact Hm]. }
+    congruence. }
+  clear H1 H2 IH. generalize 0. induction kids as [|k r IHr]; intros i; [reflexivity|]. cbn [canon_itemsD].
+  rewrite (Hk k (or_introl eq_refl)). destruct (D (iid k)); apply IHr; intros k' Hk'; apply Hk; right; exact Hk'.
+Qed.
+Lemma canon_itemsD_head_ge D rec L : forall kids i k sub r, canon_itemsD D rec L i kids = (k, sub) :: r -> i <= k.
+Proof.
+  induction kids as [|x kids' IH]; intros i k sub r H; [discriminate|]. cbn [canon_itemsD] in H.
+  destruct (D (iid x)); [|exact (IH i k sub r H)].
+  destruct (hits L x); [injection H as <- _ _; lia|]. specialize (IH (S i) k sub r H). lia.
+Qed.
+
+Lemma tgo_canonD D L n rest : forall l1 i kj l2,
+  (forall k, In k l1 -> ~ In n (ids k)) -> (forall k, In k l2 -> ~ In n (ids k)) -> In n (ids kj) -> D (iid kj) = true ->
+  trie_add rest n (canonD D L kj) = canonD D (n :: L) kj ->
+  tgo (i + vcount D l1) rest n (canon_itemsD D (canonD D L) L i (l1 ++ kj :: l2))
+  = canon_itemsD D (canonD D (n :: L)) (n :: L) i (l1 ++ kj :: l2).
+Proof.
+  induction l1 as [|x l1' IH]; intros i kj l2 H1 H2 Hn Hvis Hrec.
+  - unfold vcount. cbn [app filter length canon_itemsD]. rewrite Nat.add_0_r, Hvis, (hits_cons_in L kj n Hn), (canon_itemsD_out D L n l2 H2).
+    destruct (hits L kj) eqn:E.
+    + cbn [tgo]. rewrite Nat.eqb_refl, Hrec. reflexivity.
+    + rewrite (canonD_miss D L kj E) in Hrec.
+      destruct (canon_itemsD D (canonD D L) L (S i) l2) as [|[k' sub] r] eqn:El; cbn [tgo]; [rewrite Hrec; reflexivity|].
+      pose proof (canon_itemsD_head_ge _ _ _ _ _ _ _ _ El) as Hge.
+      destruct (Nat.eqb_spec k' i); [lia|]. destruct (Nat.ltb_spec i k'); [|lia]. rewrite Hrec. reflexivity.
+  - cbn [app canon_itemsD]. rewrite (hits_cons_out L x n (H1 x (or_introl eq_refl))), (canonD_cons_out D L n x (H1 x (or_introl eq_refl))).
+    unfold vcount. cbn [filter]. fold (vcount D l1').
+    destruct (D (iid x)) eqn:Ed.
+    + assert (IH' := IH (S i) kj l2 (fun k Hk => H1 k (or_intror Hk)) H2 Hn Hvis Hrec).
+      cbn [length]. fold (vcount D l1'). replace (i + S (vcount D l1')) with (S i + vcount D l1') by lia.
+      destruct (hits L x); [|exact IH'].
+      cbn [tgo]. destruct (Nat.eqb_spec i (S i + vcount D l1')); [lia|]. destruct (Nat.ltb_spec (S i + vcount D l1') i); [lia|].
+      f_equal. exact IH'.
+    + exact (IH i kj l2 (fun k Hk => H1 k (or_intror Hk)) H2 Hn Hvis Hrec).
+Qed.
+
+(* every node strictly below s on the way to n (n included) is visible *)
+Definition way_visible (D : nfilter) (n : nid) (s : itree) : Prop :=
+  forall x, In x (flat_map subtrees (ikids s)) -> In n (ids x) -> D (iid x) = true.
+Lemma add_canonD D L n : forall s, NoDup (ids s) -> In n (ids s) -> way_visible D n s -> forall p, rpathD D n s = Some p ->
+  trie_add p n (canonD D L s) = canonD D (n :: L) s.
+Proof.
+  induction s as [id pl kids IH] using itree_ind'. intros Hnd Hn Hw p Hp. rewrite rpathD_unfold in Hp. rewrite !canonD_unfold.
+  rewrite ids_unfold in Hnd, Hn. inversion Hnd as [|? ? Hni Hnd']; subst.
+  destruct (N.eqb id n) eqn:E.
+  - apply N.eqb_eq in E. subst id. injection Hp as <-. rewrite trie_add_nil.
+    assert (memb n (n :: L) = true) as -> by (unfold memb; cbn; rewrite N.eqb_refl; reflexivity).
+    f_equal. symmetry. apply canon_itemsD_out. intros k Hk Hin. apply Hni. apply in_flat_map. exists k. auto.
+  - destruct Hn as [->|Hn]; [rewrite N.eqb_refl in E; discriminate|].
+    assert (Hid : memb id (n :: L) = memb id L) by (unfold memb; cbn [existsb]; rewrite E; reflexivity).
+    rewrite Hid. apply in_flat_map in Hn. destruct Hn as [kj [Hkj Hn]]. destruct (in_split _ _ Hkj) as [l1 [l2 Ek]]. subst kids.
+    assert (H1 : forall k, In k l1 -> ~ In n (ids k)).
+    { intros k Hk Hin. rewrite flat_map_app in Hnd'. eapply nodup_app_disj; [exact Hnd'|apply in_flat_map; exists k; eauto|].
+      cbn [flat_map]. apply in_or_app. left. exact Hn. }
+    assert (H2 : forall k, In k l2 -> ~ In n (ids k)).
+    { intros k Hk Hin. rewrite flat_map_app in Hnd'. apply nodup_app_r in Hnd'. cbn [flat_map] in Hnd'.
+      eapply nodup_app_disj; [exact Hnd'|exact Hn|apply in_flat_map; exists k; eauto]. }
+    assert (Hvis : D (iid kj) = true).
+    { apply Hw; [|exact Hn]. cbn [ikids]. apply in_flat_map. exists kj. split; [exact Hkj|apply self_in_subtrees]. }
+    assert (Hwk : way_visible D n kj).
+    { intros x Hx. apply Hw. cbn [ikids]. apply in_flat_map. exists kj. split; [exact Hkj|].
+      destruct kj as [j pj kk]. rewrite subtrees_unfold. right. exact Hx. }
+    destruct (rpathD_some D n kj Hn) as [q Hq].
+    rewrite (rpath_kidsD_pick D (rpathD D n) l1 0 kj l2 q) in Hp; [|intros x Hx; apply rpathD_none; exact (H1 x Hx)|exact Hq].
+    injection Hp as <-. rewrite trie_add_cons. f_equal.
+    rewrite Forall_forall in IH.
+    assert (Hndk : NoDup (ids kj)) by exact (flat_map_nodup_part ids _ kj Hnd' Hkj).
+    exact (tgo_canonD D L n q l1 0 kj l2 H1 H2 Hn Hvis (IH kj Hkj Hndk Hn Hwk q Hq)).
+Qed.
